@@ -45,6 +45,10 @@ func c20Gen(runSeed uint64, tier string) *gen.Scenario {
 			}
 		}
 	}
+	if g.Chance(0.12) || gen.Forced("multiparent") {
+		// directed shape: several parent types, one read each, in flight at once
+		sc.Model, sc.Tuples, sc.Requests = g.MultiParent()
+	}
 	var rqs []gen.Request
 	checks := sc.Requests
 	los := g.ListObjectsRequests(sc.Model, 4, [3]float64{0.7, 0.15, 0.15})
